@@ -49,6 +49,9 @@ struct CState {
     out: Vec<u8>,
     out_shutdown: bool,
     write_fault: Option<(usize, io::ErrorKind)>,
+    /// every k-th call of write() fails with `Interrupted` without taking anything (0 = never)
+    write_interrupt_every: usize,
+    write_calls: usize,
     consumed: usize,
     events: Vec<Event>,
     starve: Option<StarveFn>,
@@ -92,6 +95,8 @@ pub fn pair() -> (MemClient, MemConn) {
             out: Vec::new(),
             out_shutdown: false,
             write_fault: None,
+            write_interrupt_every: 0,
+            write_calls: 0,
             consumed: 0,
             events: Vec::new(),
             starve: None,
@@ -206,6 +211,10 @@ impl MemConn {
         if st.out_shutdown {
             return Err(io::Error::new(io::ErrorKind::BrokenPipe, "write after shutdown"));
         }
+        st.write_calls += 1;
+        if st.write_interrupt_every > 0 && st.write_calls % st.write_interrupt_every == 0 {
+            return Err(io::Error::new(io::ErrorKind::Interrupted, "injected transient write error"));
+        }
         let mut n = buf.len();
         if let Some((limit, kind)) = st.write_fault {
             if st.out.len() >= limit {
@@ -284,6 +293,11 @@ impl MemClient {
     pub fn set_write_fault(&self, limit: usize, kind: io::ErrorKind) {
         let mut st = self.sh.st.lock().unwrap();
         st.write_fault = Some((limit, kind));
+    }
+    /// every k-th write call reports `Interrupted` (a transient error: the caller is to try again)
+    pub fn set_write_interrupts(&self, every: usize) {
+        let mut st = self.sh.st.lock().unwrap();
+        st.write_interrupt_every = every;
     }
     pub fn set_starve(&self, f: StarveFn) {
         let mut st = self.sh.st.lock().unwrap();
